@@ -4,6 +4,6 @@ CONSTANTS
   PVT = 50
   Cap = 2048
   BatchMax = 1024
-INVARIANTS C05Safety
+INVARIANTS LastIsFresh FailureMeansNoRun
 POSTCONDITION Accepted
 CHECK_DEADLOCK FALSE
